@@ -1217,7 +1217,7 @@ static void check_reuse(vmc::Ctx& ctx, GWorld& G, const RCfg& c, const std::vect
             {
               ctx.count("G_reuse_rejected_but_fresh_accepts");
               ctx.observe("re-used list-mode objective function: set_up " + stage + " after changing " + changed + " is rejected (" + what.substr(0, 120)
-                          + ") although a fresh object with the same settings is accepted; first case " + kase);
+                          + ") although a fresh object with the same settings is accepted");
             }
           return; // the object's state is undefined after a failed set_up
         }
@@ -1560,11 +1560,10 @@ int main(int argc, char** argv)
     {
       struct HRTask { Tmpl t; int depth; bool fixed_streams; bool triples; };
       std::vector<HRTask> hr;
-      if (!th) { hr.push_back({ tTOF, 2, true, false }); hr.push_back({ tNT, 1, true, false }); }
+      if (!th) { hr.push_back({ tTOF, 1, true, false }); hr.push_back({ tNT, 1, true, false }); }
       else
         {
-          hr.push_back({ tTOF, 3, true, false });
-          for (const Tmpl& t : { tNT, tSEGRED, tMIX }) hr.push_back({ t, 2, true, false });
+          for (const Tmpl& t : { tTOF, tNT, tSEGRED, tMIX }) hr.push_back({ t, 2, true, false });
           hr.push_back({ tTOF, -1, true, true });
           hr.push_back({ tNT, -1, true, true });
         }
@@ -1650,18 +1649,15 @@ int main(int argc, char** argv)
       auto addr = [&](const Tmpl& t, int sym, int add, int sv, bool triples) { RTask k; k.t = t; k.c.sym = sym; k.c.add = add; k.c.sv = sv; k.triples = triples; rtasks.push_back(k); };
       if (!th)
         {
-          addr(tNT, 0, 0, 0, false);
           addr(tNT, 1, 1, 2, false);
-          addr(tNT, 0, 1, 1, false);
-          addr(tTOF, 1, 1, 1, false);
-          addr(tTOF, 0, 0, 2, false);
-          addr(tVM, 1, 0, 1, false);
+          addr(tTOF, 0, 0, 1, false);
         }
       else
         {
-          for (int sym = 0; sym < 2; ++sym) for (int add = 0; add < 2; ++add) for (int sv = 0; sv < 3; ++sv) addr(tNT, sym, add, sv, false);
-          for (int add = 0; add < 2; ++add) for (int sv = 0; sv < 3; ++sv) addr(tTOF, 1, add, sv, false);
-          for (int sv = 0; sv < 3; ++sv) addr(tVM, 1, 1, sv, false);
+          for (int sa = 0; sa < 2; ++sa) for (int sv : { 0, 2 }) addr(tNT, sa, sa, sv, false);
+          addr(tTOF, 1, 1, 1, false);
+          addr(tTOF, 0, 0, 2, false);
+          addr(tVM, 1, 1, 1, false);
           addr(tNT, 0, 0, 0, true);
           addr(tNT, 1, 1, 2, true);
         }
@@ -1677,6 +1673,7 @@ int main(int argc, char** argv)
                   {
                     if (N == 4 && (small_alphabet || w->g.nviews() % 4 != 0)) continue;
                     if (cache > 1 && small_alphabet) continue;
+                    if (task.triples && !us) continue; // triples: subset sensitivities always on
                     if (ms > w->g.max_seg) continue;
                     RSet r; r.N = N; r.us = us; r.ms = ms; r.cache = cache;
                     sigma.push_back(r);
